@@ -448,7 +448,7 @@ def r08_3(ctx, rr):
 
 
 # ------------------------------------------------------------------------------------------------
-@rule("R20.1", props=["C20"], floor=3, title="rewind() of a lender over a Seek source seeks to the start on every Ok path and rebuilds the decoder after it")
+@rule("R20.1", props=["C20", "C17"], floor=3, title="rewind() of a lender over a Seek source seeks to the start on every Ok path and rebuilds the decoder after it")
 def r20_1(ctx, rr):
     F = ctx.F()
     rew = [b for b in F.fns() if b.name == "rewind" and (b.impl_trait or "").endswith("RewindableIoLender") and "Seek" in (b.impl_preds or "")]
